@@ -39,7 +39,7 @@ REACH = {"quick": {"editing-calls": 3000, "deepcopy-cuts": 1000, "warn-once-seco
 
 WARNING = "Warning: A successor has modified the shared dicts"
 HANDON = ["filter", "filter_out", "sort", "unique", "head", "tail", "slice", "copy", "reverse", "sample", "semi_join", "anti_join", "drop_na",
-          "append", "extend", "add", "mul", "chain", "chain", "group_by", "probe_aggregate", "probe_write_csv", "probe_to_json", "probe_to_data_frame"]
+          "append", "extend", "add", "mul", "chain", "chain", "group_by", "probe_aggregate", "probe_write_csv", "probe_to_json", "probe_to_data_frame", "map_dicts"]
 EDIT = ["modify", "modify_if", "rename", "select", "unselect", "fill_missing_keys", "fill_missing_keys_noarg", "inner_join", "left_join"]
 
 def generate(rng, tier):
@@ -167,6 +167,9 @@ def execute(case):
                 elif op in ("semi_join", "anti_join"):
                     out = getattr(lst, op)(other, join_by[0]) if all("k" in x for x in _items(lst)) else lst.copy()
                 elif op == "drop_na": out = lst.drop_na("k")
+                elif op == "map_dicts":
+                    # map with a function that returns NEW dicts: the result holds none of the receiver's items (the shadow model sees that by identity)
+                    out = lst.map(lambda x: dict(x, mapped=1))
                 elif op == "probe_aggregate":
                     # a summary function that edits the group-wise list it is handed: that list is the function's own, the receiver's items stay as they are
                     if n and all("k" in x for x in _items(lst)):
@@ -303,7 +306,10 @@ def execute(case):
                     if shared:
                         res.violate("deepcopy:shares-objects-with-original", f"step {step}: deepcopy returned items (or nested containers) that are the same objects as the original's; trace {trace}")
                         return res.dict()
-            new = Node(out, parent=node, cut=(op in ("deepcopy", "construct")), how=op)
+            cut = op in ("deepcopy", "construct")
+            if op == "map_dicts" and not ({id(x) for x in _items(out)} & {id(x) for x in _items(lst)}):
+                cut = True        # none of the receiver's item objects was handed on: not an ancestor edge
+            new = Node(out, parent=node, cut=cut, how=op)
             children[id(node)] = children.get(id(node), 0) + 1
             if children[id(node)] == 2:
                 branches += 1
